@@ -224,9 +224,14 @@ where
     let ty = E::ty();
     let rounds = ctx.n(40, 400);
     let mut plan: Vec<(usize, u64)> = lengths(ctx).into_iter().map(|l| (l, rounds)).collect();
-    // one list whose count needs three varint bytes for every element type
-    plan.push((8192, 1));
-    if ty.may_encode_empty() {
+    let slow_lane = matches!(ctx.lane.as_str(), "msan" | "asan" | "tsan" | "miri");
+    if slow_lane {
+        plan.retain(|(l, _)| *l <= 128);
+    } else {
+        // one list whose count needs three varint bytes for every element type
+        plan.push((8192, 1));
+    }
+    if ty.may_encode_empty() && !slow_lane {
         // elements with an empty encoding cost nothing: counts that need three varint bytes, once each
         plan.extend([(65_535usize, 1u64), (65_536, 1), (65_537, 1), (70_000, 1)]);
     }
